@@ -10,7 +10,7 @@ from ..callgraph import CallGraph
 from .. import binding
 from ..mini import must_fire
 from .kernels import (WB, E, GRID, PAR, DEPTH, Z0, FI, DI, kernel_interp, grid)
-from .c02 import match_nested_sum
+from .c02 import match_nested_sum, full_range
 
 NR = WB + "solvers.numba_newton_raphson"
 WIND = WB + "st4_wind_input._st4_wind_generation_point"
@@ -152,15 +152,17 @@ def run(ctx):
         if len(pos) == 1:
             m = match_nested_sum(pos[0], 2)
             if m:
-                X, ((fv, _), (dv, _)) = m
-                okp = sp.expand(X - op("item", g, sp.Tuple(fv, dv)) * op("item", fstep, fv) * op("item", dstep, dv)) == 0
+                X, ((fv, fr), (dv, dr)) = m
+                okp = sp.expand(X - op("item", g, sp.Tuple(fv, dv)) * op("item", fstep, fv) * op("item", dstep, dv)) == 0 \
+                    and full_range(fr, (g, E, dEdt), (0, -2)) and full_range(dr, (g, E, dEdt), (1, -1))
         if len(neg_) == 1:
             m = match_nested_sum(-neg_[0], 2)
             if m:
-                X, ((fv, _), (dv, _)) = m
+                X, ((fv, fr), (dv, dr)) = m
+                okr = full_range(fr, (g, E, dEdt), (0, -2)) and full_range(dr, (g, E, dEdt), (1, -1))
                 gi = op("item", g, sp.Tuple(fv, dv))
                 want = T.ITE(CMP("gt", gi, 0), op("item", dEdt, sp.Tuple(fv, dv)) * op("item", dstep, dv) * op("item", fstep, fv), 0)
-                okn = T.equivalent(X, want) == T.Verdict.EQUAL
+                okn = okr and T.equivalent(X, want) == T.Verdict.EQUAL
         ctx.expect(okp, "R11.2", "_u10_iteration_function[integrated generation]",
                    "+ sum_f sum_d generation[f,d]*df*dd", f.loc(), derived=T.show(pos[0], 160) if pos else "missing")
         ctx.expect(okn, "R11.2", "_u10_iteration_function[active-region dE/dt]",
@@ -193,6 +195,52 @@ def run(ctx):
                    "their own parameters", f.loc(), derived=str({k: T.show(v, 30) for k, v in m.items()}))
         ctx.expect(T.to_term(r[0]) == op("item", c, sp.Integer(0)) and T.to_term(r[1]) == op("item", c, sp.Integer(1)), "R11.3",
                    "_u10_from_spectra_point[result]", "returns the (speed, direction) pair unchanged", f.loc())
+    ctx.absorb(it)
+
+    # ---- R11.3 the dissipation-weighted mean direction itself: all bins, wavenumber weights, minus sign, atan2(ky, kx)
+    f = p.get_function(WB + "dissipation._bulk_dissipation_direction_point")
+    it = kernel_interp(p, {})
+    dfn = P("dissfn")
+    r = it.call_function(f, [E, DEPTH, dfn, GRID, PAR], {}, None)
+    tag = "_bulk_dissipation_direction_point"
+    if not (isinstance(r, tuple) and len(r) == 2):
+        ctx.unsure("R11.3", tag, "does not return (direction, bulk)", f.loc())
+    else:
+        dterm, bterm = T.to_term(r[0]), T.to_term(r[1])
+        S = T.find_ops(bterm, "apply")
+        S = S[0] if S else None
+        at = T.find_ops(dterm, "atan2") or sorted(dterm.atoms(sp.atan2), key=str)
+        okshape = S is not None and len(at) == 1 and \
+            T.equivalent(dterm, op("pymod", 180 * at[0] / sp.pi, 360)) == T.Verdict.EQUAL
+        ctx.expect(okshape, "R11.3", tag + "[degrees in [0, 360)]",
+                   "direction == (atan2(ky, kx) * 180/pi) % 360", f.loc(), derived=T.show(dterm, 120))
+        if okshape:
+            ky, kx = at[0].args
+            fstep, dstep = grid("frequency_step"), grid("direction_step")
+            kd = T.find_ops(dterm, "kdisp")
+            okk = len(kd) == 1 and kd[0].args[0] == grid("radian_frequency") and kd[0].args[1] == DEPTH
+            ctx.expect(okk, "R11.3", tag + "[wavenumber]", "wavenumbers come from the dispersion relation at the grid's radian "
+                       "frequencies and the point's depth", f.loc(), derived=str([T.show(k, 80) for k in kd]))
+            for nm, comp, h in (("kx", kx, sp.cos), ("ky", ky, sp.sin)):
+                m = match_nested_sum(comp, 2)
+                if m is None or not okk:
+                    ctx.bad("R11.3", tag + f"[{nm}]", "component is not a double sum over frequency and direction", f.loc(), derived=comp)
+                    continue
+                X, ((fv, fr), (dv, dr)) = m
+                want = -op("item", S, sp.Tuple(fv, dv)) * op("item", kd[0], fv) * op("item", h(grid("radian_direction")), dv) \
+                    * op("item", fstep, fv) * op("item", dstep, dv)
+                ctx.equiv("R11.3", tag + f"[{nm}]", X, want, f.loc(),
+                          f"{nm} == - sum_f sum_d k[f]*{h.__name__}(theta[d])*S[f,d]*df[f]*dtheta[d] (S <= 0 is the dissipation)", interp=it)
+                ctx.expect(full_range(fr, (E, S), (0, -2)) and full_range(dr, (E, S), (1, -1)), "R11.3", tag + f"[{nm} over all bins]",
+                           "the weighted sum runs over every frequency and every direction bin", f.loc(), derived=sp.Tuple(fr, dr))
+            mb = match_nested_sum(bterm, 2)
+            okb = False
+            if mb:
+                X, ((fv, fr), (dv, dr)) = mb
+                okb = sp.expand(X - op("item", S, sp.Tuple(fv, dv)) * op("item", fstep, fv) * op("item", dstep, dv)) == 0 \
+                    and full_range(fr, (E, S), (0, -2)) and full_range(dr, (E, S), (1, -1))
+            ctx.expect(okb, "R11.2", tag + "[integrated dissipation]", "bulk == sum_f sum_d S[f,d]*df[f]*dtheta[d] over all bins",
+                       f.loc(), derived=T.show(bterm, 160))
     ctx.absorb(it)
 
     # ---- R11.5 numba try/keyword binding over everything reachable from the public entry points
@@ -268,8 +316,8 @@ def run(ctx):
                    "iteration flag forwarded", ef.loc(), derived=str({kk: T.show(v, 60) for kk, v in m.items()}))
     ctx.absorb(it)
     ctx.require_count("R11.1", 1)
-    ctx.require_count("R11.2", 8)
-    ctx.require_count("R11.3", 3)
+    ctx.require_count("R11.2", 9)
+    ctx.require_count("R11.3", 9)
     ctx.require_count("R11.4", 4)
     ctx.require_count("R11.5", 3)
     ctx.require_count("R11.6", 2)
